@@ -239,4 +239,63 @@ def PLim.take (l : PLim) (unix : Int) (v : PVSys) (key : String) : Option (PVSys
   | none => none
   | some w => some (v.take l.quota.toNat w.toNat true (l.pre ++ key))
 
+/-! ### round 5c: a reply lost AFTER the script ran
+
+The caller's deadline (or the client's read timeout) expires while the script call is in flight: the server has executed
+the script — or not, the caller cannot know — and the caller gets an error instead of the reply.  The model takes the
+case the earlier rounds excluded: the script HAS run.  What the caller sees: `context.DeadlineExceeded` (a context
+error) or an i/o timeout (any other error). -/
+
+inductive LostKind where
+  | deadline      -- the error is context.DeadlineExceeded
+  | timeout       -- the error is an i/o timeout (not a context error)
+  deriving Repr, DecidableEq
+
+/-- `TakeCtx` whose reply is lost after the script ran: the counter moved, the caller gets `(Unknown, err)` -/
+def PSys.takeLost (quota period : Nat) (s : PSys) (key : String) : PSys × (Code × PErr) :=
+  if s.up then ({ s with store := (periodScript s.store key quota period).1 }, takeResult .err)
+  else (s, takeResult .err)
+
+/-- `reserveN` of instance `i` whose reply is lost after the script ran (`redisAlive = 1`, store reachable): the bucket
+was charged if the script allowed; a context error refuses, any other error is a store failure (`startMonitor`, the
+local limiter decides this request) -/
+def Sys.reserveLost (c : TCfg) (s : Sys) (i ns n : Nat) (k : LostKind) : Sys × Ev :=
+  let inst := s.insts i
+  if !inst.alive || !s.up then s.reserveN true c i ns n                -- nothing in flight that could be lost
+  else
+    match tokenScript true c s.store (ns / nsPerSec) n with
+    | none => s.reserveN true c i ns n
+    | some r =>
+      let s1 : Sys := { s with store := r.1 }
+      match k with
+      | .deadline => (s1, ⟨i, .store, ns, n, false⟩)
+      | .timeout => s1.rescuePath c i inst.startMonitor ns n
+
+/-! ### round 5c: the store client's type switch and its breaker's view of errors -/
+
+/-- `getRedis`: the client types that yield a connection (`NodeType`, `ClusterType`); anything else is an error -/
+def typeSupported (t : String) : Bool := t == "node" || t == "cluster"
+
+/-- the errors a script call can end with, as the code distinguishes them -/
+inductive ErrClass where
+  | none          -- no error
+  | redisNil      -- redis.Nil: the token script returned false
+  | canceled      -- context.Canceled
+  | deadline      -- context.DeadlineExceeded
+  | other         -- anything else (refused connection, error reply, i/o timeout, unsupported type …)
+  deriving Repr, DecidableEq
+
+/-- `acceptable`: what the client's circuit breaker does NOT count as a failure -/
+def breakerAccepts : ErrClass → Bool
+  | .none | .redisNil | .canceled => true
+  | .deadline | .other => false
+
+/-- how `reserveN` reads the error of the script call (`TReply` for the non-integer / integer replies) -/
+def ErrClass.treply : ErrClass → Option TReply
+  | .none => Option.none
+  | .redisNil => some .nilReply
+  | .canceled => some .ctxErr
+  | .deadline => some .ctxErr
+  | .other => some .err
+
 end GoZero.C03
